@@ -288,7 +288,7 @@ type CorpusCase struct {
 }
 
 func corpusRecords(file string) []string {
-	b, err := os.ReadFile(filepath.Join("/repo/data", file))
+	b, err := os.ReadFile(vk.RepoPath(filepath.Join("data", file)))
 	if err != nil {
 		return nil
 	}
